@@ -121,20 +121,20 @@ Fixpoint bounded_dump (an : list (N * N)) (m : N) (d : list (option upd)) : bool
               && bounded_dump an (N.succ m) r
   end.
 
-(* walk: returns verdict *)
-Fixpoint grun (M : N) (g : gstate) (ops : list gop) (ds : list (list (option upd))) : N :=
+(* walk: returns verdict.  The oracle is evaluated on EVERY implementation dump, also after the model
+   and the implementation have started to disagree (the announced maxima depend on the ops only). *)
+Fixpoint grun (M : N) (g : gstate) (ops : list gop) (ds : list (list (option upd))) (mm : bool) : N :=
   match ops, ds with
-  | [], [] => V_OK
+  | [], [] => if mm then V_MISMATCH else V_OK
   | o :: ops', d :: ds' =>
       let '(g', r, pre) := gstep_run g o in
-      if negb pre then 9
-      else if negb (bounded_dump (snd g') 0 d) then V_VIOLATION
-      else if negb (list_eqb (option_eqb upd_eqb) (dump M (nth_st (fst g') r)) d) then V_MISMATCH
+      if negb (bounded_dump (snd g') 0 d) then V_VIOLATION
       else grun M g' ops' ds'
+                (mm || negb pre || negb (list_eqb (option_eqb upd_eqb) (dump M (nth_st (fst g') r)) d))
   | _, _ => 9
   end.
 
 Definition global_case := (N * list gop * list (list (option upd)))%type.
 Definition check_global (c : global_case) : N :=
   let '(M, ops, ds) := c in
-  grun M (map (fun _ => init) (N_seq M), []) ops ds.
+  grun M (map (fun _ => init) (N_seq M), []) ops ds false.
